@@ -71,13 +71,15 @@ def run(ctx):
     with ctx.rule('R11.5', 'cancel is idempotent, drop cancels, basic_cancel = Basic.Cancel{tag, nowait: false} awaiting CancelOk', floor=5) as r:
         rows = P.table(ctx, 'consumer::Consumer::cancel', ['self'])
         site = ctx.site('consumer::Consumer::cancel')
-        again = [x for x in rows if x.conds == [('std::cell::Cell::get(self.cancelled)', True)]]
-        first = [x for x in rows if x.conds == [('std::cell::Cell::get(self.cancelled)', False)]]
-        if r.check('rows', len(rows) == 2 and len(again) == 1 and len(first) == 1, site, built=[x.row() for x in rows]):
+        # the flag is tested and set either as get() .. set(true) or in one step as replace(true)
+        GET, SET, REP = 'std::cell::Cell::get(self.cancelled)', 'std::cell::Cell::set(self.cancelled, true)', 'std::cell::Cell::replace(self.cancelled, true)'
+        again = [x for x in rows if x.conds in ([(GET, True)], [(REP, True)])]
+        first = [x for x in rows if x.conds in ([(GET, False)], [(REP, False)])]
+        if r.check('rows', len(rows) == 2 and len(again) == 1 and len(first) == 1 and again[0].conds[0][0] == first[0].conds[0][0], site, built=[x.row() for x in rows]):
             r.check('second-cancel-sends-nothing', again[0].value_str() == 'Ok(())' and not [e for e in again[0].effects if 'basic_cancel' in e or 'call' in e.split('(')[0].split('::')[-1]], site, built=again[0].row())
             eff = [e for e in first[0].effects if not e.startswith('std::cell::Cell::get')]
-            r.eq('first-cancel', eff, ['std::cell::Cell::set(self.cancelled, true)', 'channel::Channel::basic_cancel(self.channel, self)'], site,
-                 why='flag set before the request so that a failing or repeated cancel never sends twice')
+            want = [SET, 'channel::Channel::basic_cancel(self.channel, self)'] if first[0].conds[0][0] == GET else [REP, 'channel::Channel::basic_cancel(self.channel, self)']
+            r.eq('first-cancel', eff, want, site, why='flag set before the request so that a failing or repeated cancel never sends twice')
         evs, ret = ctx.events("<consumer::Consumer<'_> as std::ops::Drop>::drop")
         r.check('drop-cancels', any(e.kind == 'call' and e.callee == 'consumer::Consumer::cancel' and S.show(e.args[0]) == 'self' and S.unconditional(e, evs) for e in evs), ctx.site("<consumer::Consumer<'_> as std::ops::Drop>::drop"))
         ems, ret, events = W.read_op(ctx, 'consumer::Consumer::cancel', ['self'])
